@@ -4,6 +4,7 @@ import (
 	"bytes"
 	"fmt"
 	"math/rand"
+	"net"
 	"sort"
 	"strings"
 	"time"
@@ -31,6 +32,7 @@ type c17Face struct {
 	tr    *face.VerifTransport
 	local bool
 	id    uint64
+	conn  net.Conn // remote TCP peer: the harness end of a real connection (tr is nil)
 }
 
 type c17Daemon struct {
@@ -40,6 +42,7 @@ type c17Daemon struct {
 	app2     *c17Face // second local face
 	peer     *c17Face // non-local face
 	extra    []*c17Face
+	tcp      *c17Face // non-local face over a real TCP connection from this host's non-loopback address (nil when the host has none)
 	nonce    uint32
 	// reference state
 	routes    map[string]map[string]refRoute // name -> "face/origin" -> route
@@ -89,6 +92,7 @@ func c17Start(c *h.Ctx, allowHop bool, algo string) *c17Daemon {
 	d.app = d.newFace(true, 1)
 	d.app2 = d.newFace(true, 2)
 	d.peer = d.newFace(false, 3)
+	d.tcp = d.tcpPeer()
 	// wait for the management thread to install its own route
 	deadline := time.Now().Add(5 * time.Second)
 	pfx, _ := enc.NameFromStr("/localhost/nfd")
@@ -128,13 +132,78 @@ func (d *c17Daemon) send(f *c17Face, name enc.Name, cbp bool) enc.Name {
 	body = append(body, tlvwalk.TLV(0x12, nil)...)
 	body = append(body, tlvwalk.TLV(0x0a, []byte{byte(d.nonce >> 24), byte(d.nonce >> 16), byte(d.nonce >> 8), byte(d.nonce)})...)
 	body = append(body, tlvwalk.TLV(0x0c, []byte{0x27, 0x10})...)
+	if f.conn != nil {
+		// a real remote peer: the bytes travel through the socket and the transport's receive loop
+		before := f.ls.NInInterests()
+		f.conn.SetWriteDeadline(time.Now().Add(5 * time.Second))
+		f.conn.Write(tlvwalk.TLV(5, body))
+		for dl := time.Now().Add(5 * time.Second); f.ls.NInInterests() == before && time.Now().Before(dl); {
+			time.Sleep(200 * time.Microsecond)
+		}
+		return name
+	}
 	face.VerifRecv(f.ls, tlvwalk.TLV(5, body))
 	return name
+}
+
+// tcpPeer connects a real TCP peer from this host's non-loopback IPv4 address (nil when there is none).
+func (d *c17Daemon) tcpPeer() *c17Face {
+	host := ""
+	if as, err := net.InterfaceAddrs(); err == nil {
+		for _, a := range as {
+			if ipn, ok := a.(*net.IPNet); ok && ipn.IP.To4() != nil && !ipn.IP.IsLoopback() {
+				host = ipn.IP.String()
+				break
+			}
+		}
+	}
+	if host == "" {
+		d.c.Note("tcp_peer", "this host has no non-loopback IPv4 address: no real TCP requester")
+		return nil
+	}
+	ln, err := net.Listen("tcp4", net.JoinHostPort(host, "0"))
+	if err != nil {
+		d.c.Note("tcp_peer", "listen: "+err.Error())
+		return nil
+	}
+	defer ln.Close()
+	client, err := net.DialTimeout("tcp4", ln.Addr().String(), 5*time.Second)
+	if err != nil {
+		d.c.Note("tcp_peer", "dial: "+err.Error())
+		return nil
+	}
+	srv, err := ln.Accept()
+	if err != nil {
+		client.Close()
+		return nil
+	}
+	tr, err := face.AcceptUnicastTCPTransport(srv, nil, face.PersistencyPersistent)
+	if err != nil || tr == nil {
+		client.Close()
+		srv.Close()
+		return nil
+	}
+	ls := face.MakeNDNLPLinkService(tr, face.MakeNDNLPLinkServiceOptions())
+	ls.Run(nil)
+	return &c17Face{ls: ls, id: ls.FaceID(), conn: client}
+}
+
+// nonLocal picks one of the non-local requesters.
+func (d *c17Daemon) nonLocal(r *rand.Rand) *c17Face {
+	if d.tcp != nil && r.Intn(2) == 0 {
+		d.c.Count("commands_from_real_tcp_peer", 1)
+		return d.tcp
+	}
+	return d.peer
 }
 
 // await polls the face's recorded frames for a Data whose name has prefix name.
 func (d *c17Daemon) await(f *c17Face, name enc.Name, wait time.Duration) (*spec.Data, []byte) {
 	deadline := time.Now().Add(wait)
+	if f.tr == nil { // real TCP peer: replies are not read (its commands are the unauthorised ones)
+		time.Sleep(wait)
+		return nil, nil
+	}
 	for {
 		for _, fr := range f.tr.TakeFrames() {
 			p, _, err := spec.ReadPacket(enc.NewBufferReader(fr))
@@ -476,8 +545,9 @@ func (d *c17Daemon) step(id string, r *rand.Rand) bool {
 		switch r.Intn(5) {
 		case 0:
 			cls = "localhost-prefix-from-non-local-face"
-			d.log = append(d.log, fmt.Sprintf("%s: NON-LOCAL face %d sends /localhost/nfd/rib/register %s", id, d.peer.id, n))
-			d.command(d.peer, "/localhost/nfd", "rib", "register", &cp, 40*time.Millisecond)
+			nl := d.nonLocal(r)
+			d.log = append(d.log, fmt.Sprintf("%s: NON-LOCAL face %d sends /localhost/nfd/rib/register %s", id, nl.id, n))
+			d.command(nl, "/localhost/nfd", "rib", "register", &cp, 40*time.Millisecond)
 		case 1:
 			cls = "localhop-prefix-non-rib-module"
 			mod := [][2]string{{"fib", "add-nexthop"}, {"strategy-choice", "unset"}, {"cs", "config"}, {"faces", "destroy"}}[r.Intn(4)]
@@ -515,8 +585,9 @@ func (d *c17Daemon) step(id string, r *rand.Rand) bool {
 			cls = "localhost-prefix-from-non-local-face-cs"
 			a2 := &mgmt.ControlArgs{Capacity: u64p(1)}
 			cp2 := c17Params(a2)
-			d.log = append(d.log, fmt.Sprintf("%s: NON-LOCAL face %d sends /localhost/nfd/cs/config capacity=1", id, d.peer.id))
-			d.command(d.peer, "/localhost/nfd", "cs", "config", &cp2, 40*time.Millisecond)
+			nl := d.nonLocal(r)
+			d.log = append(d.log, fmt.Sprintf("%s: NON-LOCAL face %d sends /localhost/nfd/cs/config capacity=1", id, nl.id))
+			d.command(nl, "/localhost/nfd", "cs", "config", &cp2, 40*time.Millisecond)
 		}
 		if !d.alive(id) {
 			return false
